@@ -3,6 +3,7 @@ package main
 import (
 	"bytes"
 	"context"
+	"errors"
 	"fmt"
 	"strings"
 	"time"
@@ -167,4 +168,74 @@ func c17LongURL(n int) vx.Scenario {
 				return x
 			}
 		}}
+}
+
+// c17Fault: an agent call that must be refused (another backend's request id, or a foreign caller),
+// made while the k-th service call of its handling fails: a transient storage error must not turn a
+// refusal into an acceptance.
+func c17Fault(c agentCall, k int) vx.Scenario {
+	return vx.Scenario{Name: fmt.Sprintf("c17/fault/%s/service-call-%d-fails", c.String(), k), PB: 0, Single: true, MaxSteps: 200000, MaxTime: 2 * time.Minute,
+		Setup: func(s *vs.Sched) func(*vs.Result) vx.Exec {
+			w := &c17World{}
+			var res *reply
+			nops := 0
+			c17Setup(s, w, func() {
+				vae.W().Fault = func(op vae.Op) error {
+					i := nops
+					nops++
+					if i == k {
+						return errors.New("injected: datastore timeout")
+					}
+					return nil
+				}
+				res = &reply{}
+				res = w.do(c)
+				vae.W().Fault = nil
+			})
+			return func(r *vs.Result) vx.Exec {
+				var x vx.Exec
+				base(r, &x)
+				if res == nil || !res.done {
+					if len(r.Panics) == 0 && res != nil {
+						x.Violations = append(x.Violations, fmt.Sprintf("NOANSWER: %s got no answer with service call %d failing; %s", c.String(), k, blockedList(r)))
+					}
+					return x
+				}
+				x.Obs = fmt.Sprintf("%s with service call %d of %d failing -> %d", c.String(), k, nops, res.status)
+				if res.status == 200 {
+					x.Violations = append(x.Violations, fmt.Sprintf("FAULT-ACCEPTED: %s must be refused, but with service call %d of its handling failing it was answered 200", c.String(), k))
+				}
+				if l := w.leaks(res); l != "" {
+					x.Violations = append(x.Violations, fmt.Sprintf("LEAK: %s (refused call, service call %d failing) revealed %s", c.String(), k, l))
+				}
+				// the other backend's client must still be waiting, not answered by this caller
+				other := "R2"
+				if c.backend == "b2" {
+					other = "R1"
+				}
+				if cr := w.clientR[other]; cr != nil && cr.done && cr.status == 200 && string(cr.body) == "forged" {
+					x.Violations = append(x.Violations, fmt.Sprintf("CROSS-BACKEND: %s (service call %d failing) delivered its response to the other backend's client request %s", c.String(), k, other))
+				}
+				return x
+			}
+		}}
+}
+
+func c17FaultScenarios(th bool) []vx.Scenario {
+	var out []vx.Scenario
+	refused := []agentCall{
+		{"response", a1, "b1", "R2"}, {"request", a1, "b1", "R2"}, {"response", a2, "b2", "R1"},
+		{"response", "mallory@example.com", "b1", "R1"}, {"request", "mallory@example.com", "b1", "R1"}, {"pending", "mallory@example.com", "b1", ""},
+		{"response", a2, "b1", "R1"}, {"request", a2, "b1", "R1"},
+	}
+	n := 8
+	if th {
+		n = 14
+	}
+	for _, c := range refused {
+		for k := 0; k < n; k++ {
+			out = append(out, c17Fault(c, k))
+		}
+	}
+	return out
 }
